@@ -2,12 +2,16 @@ package props
 
 import (
 	"fmt"
+	"sync"
 	"testing"
+	"time"
 
 	"pgregory.net/rapid"
 
 	"verif/sim/hx"
+	"verif/sim/memnet"
 	"verif/sim/wire"
+	"verif/sim/world"
 )
 
 // C04 - outbound byte stream is whole well-formed messages; WriteUpdate contract.
@@ -345,4 +349,218 @@ func TestC04(t *testing.T) {
 	defer r.Finish(t)
 	hx.Rapid(r, t, "writers", r.N(2000, 20000), genC04Script, c04Prop(t, r, "writers"))
 	hx.Rapid(r, t, "churn_writers", r.N(1000, 10000), func(rt *rapid.T) script { return genScript(rt, c04Profile) }, c04Prop(t, r, "churn_writers"))
+	hx.Rapid(r, t, "small_bodies_and_keepalives", r.N(300, 4000), genC04Small, c04SmallProp(t, r, "small_bodies_and_keepalives"))
+}
+
+// ---- small (untagged) bodies next to KEEPALIVEs, with slow writes
+
+// Bodies shorter than a tag - above all the empty body, which shares its
+// length with a KEEPALIVE - are judged by counting: per connection, the
+// multiset of UPDATE bodies on the wire equals the multiset of bodies whose
+// WriteUpdate returned nil. Writes are slow (memnet.SetWriteSpin), so a
+// message stays in the caller's buffer for a while before the network copies
+// it, and the writers' gaps are the keepalive interval, so that KEEPALIVEs of
+// this and of other sessions are encoded at the very same instants.
+type c04SmallWriter struct {
+	Peer  int   `json:"peer"`
+	Lens  []int `json:"lens"`   // body length of each call (0..15)
+	GapNs int64 `json:"gap_ns"` // virtual time between calls
+}
+
+type c04SmallCase struct {
+	Holds   []int            `json:"holds"` // one Established session per entry
+	Writers []c04SmallWriter `json:"writers"`
+	SpinUs  int64            `json:"spin_us"`
+	Secs    int              `json:"secs"`
+}
+
+func smallBody(wi, n int) []byte {
+	b := make([]byte, n)
+	for i := range b {
+		b[i] = byte(0xA0 + wi) // never 0x5A
+	}
+	return b
+}
+
+func c04SmallProp(t *testing.T, r *hx.Run, sub string) func(c c04SmallCase) hx.Verdict {
+	return func(c c04SmallCase) hx.Verdict {
+		r.SetCurrent(sub, c)
+		empties, kaSessions := 0, 0
+		for _, w := range c.Writers {
+			for _, l := range w.Lens {
+				if l == 0 {
+					empties++
+				}
+			}
+		}
+		for _, h := range c.Holds {
+			if h != 0 {
+				kaSessions++
+			}
+		}
+		v := hx.Verdict{Class: fmt.Sprintf("sessions=%d/empty=%v/keepalives=%v/writers=%d", len(c.Holds), empties > 0, kaSessions > 0, min(len(c.Writers), 3))}
+		if empties > 0 && (kaSessions > 0 || len(c.Writers) >= 2) {
+			v.NT = fmt.Sprintf("%+v", c)
+		}
+		var dev *hx.Dev
+		fail := func(key, f string, a ...any) {
+			if dev == nil {
+				dev = hx.Devf(key, f, a...)
+			}
+		}
+		o := world.Run(t, func() {
+			w, err := world.New("10.0.0.1", nil)
+			if err != nil {
+				fail("setup", "%v", err)
+				return
+			}
+			defer w.Finish()
+			specs := make([]world.PeerSpec, len(c.Holds))
+			conns := make([]*memnet.Conn, len(c.Holds))
+			for i, h := range c.Holds {
+				specs[i] = world.PeerSpec{Remote: fmt.Sprintf("10.0.0.%d", 2+i), LocalAS: 64512, RemoteAS: uint32(64600 + i), Passive: true, Hold: h}
+				if err := w.AddPeer(specs[i]); err != nil {
+					fail("setup", "%v", err)
+					return
+				}
+			}
+			w.Serve()
+			w.Settle()
+			for i := range c.Holds {
+				conns[i] = w.Inbound(specs[i].Remote, "10.0.0.1")
+				w.Settle()
+				world.Handshake(w, specs[i], conns[i], 90, 0x0a000002+uint32(i))
+				if w.Sessions(specs[i].Remote) != 1 {
+					fail("setup", "session %d did not establish", i)
+					return
+				}
+			}
+			w.Net.SetWriteSpin(c.SpinUs)
+			// the remotes keep their sessions alive
+			stop := make(chan struct{})
+			var wg sync.WaitGroup
+			for i, h := range c.Holds {
+				if h == 0 {
+					continue
+				}
+				wg.Add(1)
+				go func() {
+					defer wg.Done()
+					tk := time.NewTicker(time.Duration(h) * time.Second / 3)
+					defer tk.Stop()
+					for {
+						select {
+						case <-stop:
+							return
+						case <-tk.C:
+							conns[i].RemoteSend(wire.Keepalive(), nil)
+						}
+					}
+				}()
+			}
+			type res struct {
+				body []byte
+				err  error
+			}
+			results := make([][]res, len(c.Writers))
+			var wwg sync.WaitGroup
+			for wi, wr := range c.Writers {
+				uw := w.Writer(specs[wr.Peer].Remote, 0)
+				if uw == nil {
+					fail("setup", "no writer for session %d", wr.Peer)
+					return
+				}
+				wwg.Add(1)
+				go func() {
+					defer wwg.Done()
+					for k, l := range wr.Lens {
+						if k > 0 && wr.GapNs > 0 {
+							time.Sleep(time.Duration(wr.GapNs))
+						}
+						b := smallBody(wi, l)
+						results[wi] = append(results[wi], res{b, uw.WriteUpdate(b)})
+					}
+				}()
+			}
+			time.Sleep(time.Duration(c.Secs) * time.Second)
+			wwg.Wait()
+			close(stop)
+			wg.Wait()
+			w.Net.SetWriteSpin(0)
+			w.Settle()
+			for i := range c.Holds {
+				st := conns[i].Snapshot()
+				msgs, perr := wire.ParseStream(st.Bytes())
+				if perr != nil {
+					fail("malformed-stream", "session %d: the bytes corebgp wrote are not whole well-formed messages: %v", i, perr)
+					return
+				}
+				if st.LocalClosed {
+					fail("session-ended", "session %d ended during the run (last message type %d)", i, msgs[len(msgs)-1].Type)
+					return
+				}
+				wire_ := map[string]int{}
+				ka := 0
+				for _, m := range msgs {
+					switch m.Type {
+					case wire.TypeUpdate:
+						wire_[string(m.Body)]++
+					case wire.TypeKeepalive:
+						ka++
+					}
+				}
+				called := map[string]int{}
+				for wi, wr := range c.Writers {
+					if wr.Peer != i {
+						continue
+					}
+					for _, x := range results[wi] {
+						if x.err != nil {
+							fail("write-failed", "WriteUpdate on the Established session %d returned %v", i, x.err)
+							return
+						}
+						called[string(x.body)]++
+					}
+				}
+				for b, n := range called {
+					if wire_[b] != n {
+						fail("write-count", "session %d: %d WriteUpdate calls with the %d-byte body %x returned nil, %d such UPDATEs are on the wire (%d KEEPALIVEs)", i, n, len(b), b, wire_[b], ka)
+						return
+					}
+				}
+				for b, n := range wire_ {
+					if called[b] == 0 {
+						fail("unwritten-update", "session %d: %d UPDATEs with the %d-byte body %x are on the wire, nobody wrote them through this session's writer (%d KEEPALIVEs)", i, n, len(b), b, ka)
+						return
+					}
+				}
+			}
+		})
+		if b := o.Bad(); b != "" {
+			fail("wedge", "%s", b)
+		}
+		v.Dev = dev
+		return v
+	}
+}
+
+func genC04Small(rt *rapid.T) c04SmallCase {
+	c := c04SmallCase{SpinUs: pick[int64](rt, "spin", 5, 20, 60), Secs: rapid.IntRange(3, 8).Draw(rt, "secs")}
+	for i, n := 0, rapid.IntRange(1, 3).Draw(rt, "nsess"); i < n; i++ {
+		c.Holds = append(c.Holds, pick(rt, "hold", 3, 3, 6, 0))
+	}
+	for i, n := 0, rapid.IntRange(1, 4).Draw(rt, "nwriters"); i < n; i++ {
+		wr := c04SmallWriter{Peer: rapid.IntRange(0, len(c.Holds)-1).Draw(rt, "wpeer")}
+		ka := int64(time.Second)
+		if h := c.Holds[wr.Peer]; h != 0 {
+			ka = int64(h) * int64(time.Second) / 3
+		}
+		wr.GapNs = pick(rt, "gap", 0, ka, ka, int64(time.Second), 2*ka)
+		nc := c.Secs*int(time.Second)/int(max(wr.GapNs, int64(time.Second)/4)) + 1
+		for k := 0; k < min(nc, 12); k++ {
+			wr.Lens = append(wr.Lens, pick(rt, "len", 0, 0, 0, 1, 4, 15))
+		}
+		c.Writers = append(c.Writers, wr)
+	}
+	return c
 }
